@@ -102,7 +102,7 @@ type vfDisk struct {
 	snapDone bool   // snapshot completely written (and writer finished)
 	snapLive bool   // snapshot writer still open
 	haveSnap bool
-	snapPlan []byte // bytes the generator will feed to the snapshot writer
+	snapPlan []byte          // bytes the generator will feed to the snapshot writer
 	sgen     int             // incremented when a snapshot is created or lost
 	past     map[int]*vfHist // histories of earlier generations (readers opened then)
 	// live objects
